@@ -128,6 +128,7 @@ func init() {
 			{Name: "concurrent", Race: true, Run: c16Concurrent},
 			firstCallUnit(firstRegions),
 			{Name: "many", TShards: 2, Run: c16Many},
+			{Name: "profiles", TShards: 4, Run: c16Profiles},
 		},
 	})
 }
@@ -555,5 +556,99 @@ func c16Many(c *Ctx) {
 				k.Nontrivial([]byte(fmt.Sprint("many", n, variant)))
 			})
 		}
+	}
+}
+
+// c16Profiles: interval sets generated from a DEPTH PROFILE — the number of
+// intervals open at once is walked through a list of targets (0, 1, 15..17,
+// 63..65, 255..257, 1000 …, up and down several times), opening new intervals
+// and closing randomly chosen open ones at advancing coordinates. Uniformly
+// drawn endpoints give one hump; a set of open intervals that changes its
+// representation with its size (small array <-> map, inline <-> spilled) is only
+// exercised by pile-ups that come and go without the depth reaching zero.
+// Interval numbers are shuffled; every coordinate with an event, and its
+// neighbours, is queried against the scan.
+func c16Profiles(c *Ctx) {
+	n := c.N(60, 1500)
+	levels := []int{0, 1, 2, 7, 8, 9, 15, 16, 17, 31, 32, 33, 63, 64, 65, 66, 100, 127, 128, 129, 255, 256, 257, 300, 1000}
+	for i := 0; i < n; i++ {
+		c.Case(int64(i), func(k *K) {
+			r := k.Rand()
+			maxLevel := len(levels)
+			if i%3 != 0 {
+				maxLevel = 19 // mostly up to 127 open at once
+			}
+			phases := 3 + r.IntN(8)
+			var starts, ends []int
+			open := []int{} // interval numbers currently open
+			pos := r.IntN(5)
+			var profile []int
+			for ph := 0; ph < phases; ph++ {
+				target := levels[r.IntN(maxLevel)]
+				if ph == phases-1 && r.IntN(2) == 0 {
+					target = 0
+				}
+				profile = append(profile, target)
+				for len(open) != target {
+					if len(open) < target {
+						open = append(open, len(starts))
+						starts, ends = append(starts, pos), append(ends, -1)
+					} else {
+						j := r.IntN(len(open))
+						ends[open[j]] = pos
+						open[j] = open[len(open)-1]
+						open = open[:len(open)-1]
+					}
+					if r.IntN(3) > 0 { // several events may share one coordinate
+						pos += 1 + r.IntN(2)
+					}
+				}
+				pos += r.IntN(3)
+			}
+			for _, x := range open { // whatever is still open ends somewhere later
+				pos += r.IntN(2)
+				ends[x] = pos + 1
+			}
+			for j := range ends {
+				if ends[j] <= starts[j] { // opened and closed at one coordinate: an empty interval, legal, never reported
+					k.Count("empty_or_inverted_intervals", 1)
+				}
+			}
+			// shuffle the interval numbers
+			perm := r.Perm(len(starts))
+			s2, e2 := make([]int, len(starts)), make([]int, len(starts))
+			for j, pj := range perm {
+				s2[pj], e2[pj] = starts[j], ends[j]
+			}
+			starts, ends = s2, e2
+			k.Input("depth_profile", profile)
+			k.Input("starts", starts)
+			k.Input("ends", ends)
+			ix := regions.NewIndex(starts, ends)
+			k.Count("indexes_built", 1)
+			k.Count("profile_indexes", 1)
+			// every coordinate that carries an event, and its two neighbours (at most 1500 of them for big sets)
+			qs := map[int]bool{-1: true, pos + 2: true}
+			for j := range starts {
+				for d := -1; d <= 1; d++ {
+					qs[starts[j]+d] = true
+					qs[ends[j]+d] = true
+				}
+			}
+			nq := 0
+			for q := range qs {
+				if nq > 1500 && len(starts) > 1500 {
+					break
+				}
+				nq++
+				if !checkAt(k, ix, starts, ends, q) {
+					return
+				}
+			}
+			k.Count("profile_queries", int64(nq))
+			if len(starts) >= 2 {
+				k.Nontrivial([]byte(fmt.Sprint(starts)), []byte(fmt.Sprint(ends)))
+			}
+		})
 	}
 }
